@@ -1,7 +1,9 @@
 // Translator "registry" (property C06; also the (type, version) universe of C04/C05/C07).
 //
 // Reads  <repo>/pkg/edition/java/proto/version/version.go  and
-//        <repo>/pkg/edition/java/proto/state/register.go
+//
+//	<repo>/pkg/edition/java/proto/state/register.go
+//
 // with go/parser and writes coq/Gen/Registry.v:
 //   - the Versions list (protocol numbers, variable names, version names, in list order),
 //   - Unknown / Legacy protocol numbers and how MinimumVersion / MaximumVersion are picked,
@@ -334,11 +336,7 @@ func translateRegistry(repo, out string) error {
 
 	// distinct import paths must not share a package name (type names would collide)
 	byName := map[string]string{}
-	for _, c := range calls {
-		pkg := c.typ[:strings.Index(c.typ, ".")]
-		_ = pkg
-	}
-	for local, path := range imports {
+	for _, path := range imports {
 		pn, err := t.packageName(path)
 		if err != nil {
 			continue
@@ -347,7 +345,6 @@ func translateRegistry(repo, out string) error {
 			t.problems = append(t.problems, fmt.Sprintf("register.go: packages %s and %s share the name %s", prev, path, pn))
 		}
 		byName[pn] = path
-		_ = local
 	}
 
 	if minPick == "" || maxPick == "" || len(versions) == 0 {
@@ -534,17 +531,13 @@ func (t *regTranslator) registerCall(st *ast.ExprStmt, stateVars, imports map[st
 		return c, false
 	}
 	sel, ok := cl.Type.(*ast.SelectorExpr)
-	pkgIdent, ok2 := (ast.Expr)(nil), false
-	if ok {
-		pkgIdent, ok2 = sel.X, true
-	}
-	if !ok || !ok2 {
+	if !ok {
 		t.bad(call.Args[0].Pos(), "packet type is not a qualified identifier: %s", t.src(call.Args[0]))
 		return c, false
 	}
-	pid, ok := pkgIdent.(*ast.Ident)
+	pid, ok := sel.X.(*ast.Ident)
 	if !ok || imports[pid.Name] == "" {
-		t.bad(call.Args[0].Pos(), "packet type package %s is not an import of register.go", t.src(pkgIdent))
+		t.bad(call.Args[0].Pos(), "packet type package %s is not an import of register.go", t.src(sel.X))
 		return c, false
 	}
 	pn, err := t.packageName(imports[pid.Name])
